@@ -7,12 +7,14 @@ never printed as VIOLATION lines.
 import hashlib
 import json
 import os
+import sys as _sys
 import re
 import shutil
 import subprocess
 import sys
 import time
 
+_sys.set_int_max_str_digits(0)     # results of the implementation may be huge integers
 VERIF = os.path.dirname(os.path.dirname(os.path.abspath(__file__)))
 COQ = os.path.join(VERIF, "coq")
 REPO = os.environ.get("VERIF_REPO", "/repo")
